@@ -618,6 +618,11 @@ func (h *c17Hist) findings(o c17Op, mem, etcd c17Res) []c17Finding {
 		return false
 	}
 	etcdVal := func(key string) string { return b[key].Val }
+	if x, y := a["g.present"], b["g.present"]; o.Kind == "FetchConsumerGroup" && x.Val != y.Val {
+		// found by one store only: one finding, not one per field of the group
+		add("FetchConsumerGroup:group.present", fmt.Sprintf("g.present: memory=%q etcd=%q", x.Val, y.Val))
+		return out
+	}
 	for _, k := range keys {
 		x, okx := a[k]
 		y, oky := b[k]
